@@ -32,6 +32,7 @@ void vp_reader()
         if (!(it != lst.end())) break;
         vp_point();                       // pause on an arbitrary element
         int v = *it;
+        vp_log(1200, v);
         vp_assert(v > prev, 1200);        // list order, at most once each
         vp_assert(v == 5 || v == 10 || v == 20 || v == 30 || v == 40, 1201);   // only values that were inserted
         if (v == 10) seen |= 1;
@@ -114,6 +115,7 @@ void vp_final()
     int sum = 0;
     for (auto it = r->begin(); it != r->end(); ++it) {
         int v = *it;
+        vp_log(1210, v);
         vp_assert(v > prev, 1210);
         vp_assert(v != erased, 1211);
         vp_assert(vp_g(6) == 0 || v != vp_g(6), 1213);
